@@ -293,7 +293,7 @@ func Main(tier, replay string) {
 	run.Set("pack_bisections", rn.Bisects.Load())
 	run.Sample(f.Cases[0])
 	run.Sample(f.Cases[len(f.Cases)-1])
-	run.Bound = fmt.Sprintf("%d type scenarios: every compilable labelled digraph on 2 structs over edge kinds {none,T,*T,[]T,map[string]T,embed} x root usages; 26 leaf kinds x 10 tag variants; %d metamorphic pairs; 1 cross-package graph; field-doc ownership; 11 container/pointer/embedding composites x 2 usages; both OpenAPI versions", len(f.Cases), len(pairs))
+	run.Bound = fmt.Sprintf("%d type scenarios: every compilable labelled digraph on 2 structs over edge kinds {none,T,*T,[]T,map[string]T,embed} x root usages; 29 leaf kinds x 10 tag variants; %d metamorphic pairs; 1 cross-package graph; field-doc ownership; 11 container/pointer/embedding composites x 2 usages; both OpenAPI versions", len(f.Cases), len(pairs))
 	run.Rule = "state = one set of type declarations plus the routes using them; transition = one run of the real pipeline + spec generators over a generated project; validated = per-version comparisons of components.schemas with the type-graph model, plus pairwise comparisons of shared components across metamorphic variants"
 	run.Assumptions = []string{"formats and nullability are not judged", "a component for the type of a field that is not JSON-visible is neither demanded nor forbidden", "an alias-typed field may be documented by reference or by its underlying primitive"}
 	os.RemoveAll(scratch)
